@@ -29,6 +29,8 @@ META['explanation'] += ' ' + "R1 accepts save / swap / restore of class level st
 
 META['explanation'] += ' ' + 'R6: a mutable container in a class body is never the fallback of an attribute the instances bind themselves (with a built-in example decided on every run).'
 
+META['explanation'] += ' ' + 'R7: no parameter default is a mutable container the function changes, returns, stores or hands on.'
+
 OBSERVERS = ['compose', 'ja3', 'hassh', 'hassh_server', 'fingerprints', 'key_bytes', 'key_tag', 'host_key_asdict',
              '_asdict', 'as_json', '_as_markdown', 'as_markdown', '__str__', '__eq__', '__lt__', '__hash__', 'identifier',
              '_markdown_result', '_markdown_result_complex', '_markdown_human_readable_names', '_markdown_result_list',
